@@ -21,6 +21,8 @@ if __name__ == "__main__":
               "setop", sx([4, b">=0.1.1 <1", b"~>2", [b"1.3.3", b"0.5.0"], []]), "C09_union_refuted"))
         print(entry("F-C09-3", "C09", "canon's i++ skips the wrong span after a merge that follows an unmerged neighbour: (`1.0 - 10.2.0-1 || 1 ~1.2`) ∪ `~1` loses the hyphen range and rejects 3.1.10",
               "setop", sx([4, b"1.0 - 10.2.0-1 || 1 ~1.2", b"~1", [b"3.1.10", b"1.5.0"], []]), "C09_union_drop_refuted"))
+        print(entry("F-C09-6", "C09", "the printed form of a result of Union/Intersect can carry ∞ in a lower bound (after inc of the component 9223372036854775806); ParseSetConstraint rejects it, so the public observation route ParseSetConstraint(Set.String()) is undefined on that result (the defect of F-C11-2 seen on results): npm (`<9.2.2 > 0.9223372036854775806`) ∪ `<=1 ^2.2.3` prints {[0.∞.∞:9.2.2)}",
+              "setop", sx([4, b"<9.2.2 > 0.9223372036854775806", b"<=1 ^2.2.3", [b"9.2.2", b"1.0.0"], []]), "C11_inf_lower_refuted"))
     if which == "C11":
         print(entry("F-C11-1", "C11", "NuGet: a bound printed with a fourth component 0 loses it when the printed set is parsed, so the text is not stable: `1.2.3.*` prints {[1.2.3.0:∞.∞.∞.∞)}, which re-parses and prints {[1.2.3:∞.∞.∞.∞)} (membership unchanged)",
               "setrt", sx([5, b"1.2.3.*", [b"1.2.3", b"1.2.3.1"], []]), "C11_nuget_text_refuted"))
@@ -45,6 +47,7 @@ if __name__ == "__main__":
          ("F-C03-12", "npm: `>V` for a release V becomes `>=inc(V)`, which loses the prereleases of inc(V): `>10.2.1 >10.2.2-a` rejects 10.2.2-alpha, node accepts it", cm(4, b">10.2.1 >10.2.2-a", [b"10.2.2-alpha", b"10.2.2"]), None),
          ("F-C03-13", "npm: `<0.0.0` and `<0.0.0-pre` are the empty set for deps.dev (the all-zero test of tokLess ignores the prerelease tag and the prereleases below 0.0.0): `<0.0.0-0a.2` rejects 0.0.0-0, and `<=0.0.0-a.2 <0.0.0` rejects 0.0.0-0 which node accepts", cm(4, b"<0.0.0-0a.2", [b"0.0.0-0"]), None),
          ("F-C03-14", "npm: an upper bound that comes from an x-range, caret, tilde or partial hyphen bound is `<M.m.p-0` for node (no prerelease of M.m.p passes) but `<M.m.p` (or an ∞ component) for deps.dev, so a prerelease of the bound passes when another comparator carries a tag: `<3.0.0-1.1.10 <3.*` matches 3.0.0-0", cm(4, b"<3.0.0-1.1.10 <3.*", [b"3.0.0-0", b"2.0.0"]), None),
+         ("F-C03-16", "Maven: a restriction without a lower bound gets the version 0 as its lower bound; when the upper bound sorts below 0 (0-alpha-1, 0.0-milestone-1, 0-SNAPSHOT) newSpan fails and the WHOLE requirement is rejected, although Maven accepts it: `(,0-alpha-1],[1,2]` is rejected, Maven matches 1.5", cm(3, b"(,0-alpha-1],[1,2]", [b"1.5", b"0"]), None),
         ]
         for (fid, what, (kind, arg), thm) in E:
             print(entry(fid, "C03", what, kind, arg, thm))
